@@ -6,7 +6,6 @@
     Points      face runs, per-point pipeline, off-centre list, compressed point list
     Lossless    Point, Cap, Rect, CellID, Cell, CellUnion, Polyline, Loop, lossless Polygon
     F64Exact    siTiToST(si) = piQiToST(pi, L) for every centre coordinate (soft-float, exact)
-    FeqExact    IEEE `==` implies bit identity except for zeros
     Compressed  snap detection ⇒ decoder expression, compressed Loop / Polygon
 -/
 import S2Proofs.Codec.Prim
@@ -14,7 +13,6 @@ import S2Proofs.Codec.Interleave
 import S2Proofs.Codec.Points
 import S2Proofs.Codec.Lossless
 import S2Proofs.Codec.F64Exact
-import S2Proofs.Codec.FeqExact
 import S2Proofs.Codec.Compressed
 namespace S2Proofs.Codec
 open S2 S2.Codec
